@@ -36,7 +36,7 @@ PROBES = [
     "probe.no_packet_selected", "probe.end_filter", "probe.skip_pcap", "probe.nondefault_header", "probe.local_used",
     "probe.command_mode", "probe.packet_gt_8192", "probe.end_only_program", "probe.nested_field_modified_then_written",
     "probe.late_nonfilter_statement", "probe.global_function_called", "probe.long_stream", "probe.empty_action_block",
-    "probe.flag_after_script_argument",
+    "probe.flag_after_script_argument", "probe.exit_in_action",
 ]
 
 M = 1000003
@@ -178,6 +178,8 @@ def src_stmts(stmts):
             out.append('%s("%s%s", %s);' % (fn, s[1], " {}" * len(s[2]), ", ".join(src_iexpr(x) for x in s[2])))
         elif t == "fset":
             out.append("($0).%s = %s;" % (s[1], src_iexpr(s[2])))
+        elif t == "exitif":
+            out.append("if (NP == %d) { exit(%d); } else {  };" % (s[1], s[2]))
         elif t == "mac":
             out.append('($1).%s = "%s";' % (s[1], s[2]))
         elif t == "eprintmac":
@@ -224,6 +226,11 @@ def _trunc_rem(a, b):
     if (a < 0) != (b < 0):
         q = -q
     return a - q * b
+
+
+class ExitProgram(Exception):
+    def __init__(self, code):
+        self.code = code
 
 
 class Env(object):
@@ -302,6 +309,9 @@ def ev_stmts(stmts, env):
         elif t == "fset":
             env.pkt[s[1]] = ev_i(s[2], env) & 0xFFFFFFFF
             env.modified = True
+        elif t == "exitif":
+            if env.vars["NP"] == s[1]:
+                raise ExitProgram(s[2])
         elif t == "mac":
             off = 6 if s[1] == "src" else 0
             env.data[off:off + 6] = bytes(int(x, 16) for x in s[2].split(":"))
@@ -329,42 +339,49 @@ def reference(prog, hdr, recs, skip):
     if not skip:
         out += pcapfmt.global_header(hdr)
     info = {"selected": [], "modified_written": 0, "twice": 0}
-    for idx, r in enumerate(recs):
-        data = pcapfmt.record_payload(r)
-        env.data = bytearray(data)
-        env.nested_modified = False
-        env.pkt = {"sec": r["sec"], "usec": r["usec"], "caplen": len(data), "wirelen": r["wirelen"]}
-        env.vars = {"NP": idx + 1, "PL": len(data), "WL": r["wirelen"], "TSS": r["sec"], "TSU": r["usec"]}
-        env.modified = False
-        nsel = 0
-        for f in prog["filters"]:
-            env.l = {}
-            if f["act"] is None:
-                if ev_b(f["pat"], env):
-                    nsel += 1
-                    if not skip:
-                        import struct
-                        out += struct.pack("<IIII", env.pkt["sec"], env.pkt["usec"], env.pkt["caplen"], env.pkt["wirelen"]) + bytes(env.data)
-                        if env.modified:
-                            info["modified_written"] += 1
-                        if env.nested_modified:
-                            info["nested_written"] = info.get("nested_written", 0) + 1
-            else:
-                if f["pat"] is None or ev_b(f["pat"], env):
-                    ev_stmts(f["act"], env)
-            # program prints reach stdout in program order
-            for kind, text in env.out:
-                out += text.encode()
-            env.out = []
-        info["selected"].append(nsel)
-        if nsel > 1:
-            info["twice"] += 1
-    if prog["end"] is not None:
-        env.l = {}
-        env.vars["NP"] = len(recs)
-        env.vars["PL"] = None
-        env.vars["WL"] = None
-        ev_stmts(prog["end"], env)
+    info["exit"] = 0
+    try:
+      for idx, r in enumerate(recs):
+          data = pcapfmt.record_payload(r)
+          env.data = bytearray(data)
+          env.nested_modified = False
+          env.pkt = {"sec": r["sec"], "usec": r["usec"], "caplen": len(data), "wirelen": r["wirelen"]}
+          env.vars = {"NP": idx + 1, "PL": len(data), "WL": r["wirelen"], "TSS": r["sec"], "TSU": r["usec"]}
+          env.modified = False
+          nsel = 0
+          for f in prog["filters"]:
+              env.l = {}
+              if f["act"] is None:
+                  if ev_b(f["pat"], env):
+                      nsel += 1
+                      if not skip:
+                          import struct
+                          out += struct.pack("<IIII", env.pkt["sec"], env.pkt["usec"], env.pkt["caplen"], env.pkt["wirelen"]) + bytes(env.data)
+                          if env.modified:
+                              info["modified_written"] += 1
+                          if env.nested_modified:
+                              info["nested_written"] = info.get("nested_written", 0) + 1
+              else:
+                  if f["pat"] is None or ev_b(f["pat"], env):
+                      ev_stmts(f["act"], env)
+              # program prints reach stdout in program order
+              for kind, text in env.out:
+                  out += text.encode()
+              env.out = []
+          info["selected"].append(nsel)
+          if nsel > 1:
+              info["twice"] += 1
+      if prog["end"] is not None:
+          env.l = {}
+          env.vars["NP"] = len(recs)
+          env.vars["PL"] = None
+          env.vars["WL"] = None
+          ev_stmts(prog["end"], env)
+          for kind, text in env.out:
+              out += text.encode()
+    except ExitProgram as ex:
+        info["exit"] = ex.code
+        info["exited"] = True
         for kind, text in env.out:
             out += text.encode()
     return env.err, bytes(out), info
@@ -425,6 +442,12 @@ def _gen_program2(rng, skip, nglob, prog):
             finally:
                 PKTLESS[0] = False
         prog["end"] = st
+    # awk-style early stop: one action ends the program with exit(code) at a chosen packet; everything written
+    # and printed up to that point must still come out (exit flushes stdout)
+    acts = [f for f in prog["filters"] if f["act"]]
+    if acts and rng.chance(8):
+        f = rng.choice(acts)
+        f["act"] = f["act"] + [["exitif", rng.choice([1, 2, 3, 5, 17]), rng.choice([0, 0, 1, 3])]]
     # non-filter statements placed between / after the filters: they still run exactly once, before the stream
     if rng.chance(35):
         PKTLESS[0] = True
@@ -550,8 +573,8 @@ def check(model, results):
         got_err.pop()
     if script.panic_or_crash(res.stderr):
         viols.append(_viol("process:panic", "panic: %r" % res.stderr[-300:]))
-    if res.status != ("exit", 0):
-        viols.append(_viol("process:status", "status %r; stderr tail %r" % (res.status, res.stderr[-300:])))
+    if res.status != ("exit", info.get("exit", 0)):
+        viols.append(_viol("process:status", "status %r, expected exit %d; stderr tail %r" % (res.status, info.get("exit", 0), res.stderr[-300:])))
     mode = "skip" if model["skip"] else "pcap"
     if got_err != exp_err:
         # classify the first difference
@@ -640,6 +663,8 @@ def check(model, results):
         inc("probe.long_stream")
     if any(f["act"] == [] for f in model["prog"]["filters"]):
         inc("probe.empty_action_block")
+    if info.get("exited"):
+        inc("probe.exit_in_action")
     if model["skip"] and model.get("flagpos") == "after_arg" and not model["cmd"]:
         inc("probe.flag_after_script_argument")
     inc("ops.packets", len(recs))
